@@ -31,28 +31,6 @@ READS_DICT = ('get', 'keys', 'values', 'items', 'or')
 ITER_KINDS = ('list', 'tuple', 'gen', 'iter')
 PAIR_KINDS_UPDATE = ('dict', 'list', 'tuple', 'gen', 'kwargs', 'dict+kwargs')
 PAIR_KINDS_IOR = ('dict', 'list', 'tuple', 'gen')
-# hand-over of a (tracked) container read from one slot into another slot; a slot is (object, Json/array attribute)
-HOW_L = ('append', 'insert', 'l_setitem', 'extend', 'l_setslice', 'iadd')
-HOW_D = ('d_setitem', 'update', 'update_kwargs', 'update_pairs', 'setdefault', 'ior')
-HOW_KINDS = ('list', 'tuple', 'gen')
-PEER_VARIANTS = ('obj', 'attr', 'both')      # other object same attribute / same object other Json attribute / both differ
-SIBLING = {'j': 'jl', 'jl': 'j'}
-
-
-def slot_specs(case):
-    """[(object key, attribute name)]: slot 0 is the attribute under test of object 'a'; slot 1 (optional) is the peer"""
-    attr = ATTR[case['kind']]
-    specs = [('a', attr)]
-    peer = case.get('peer')
-    if peer:
-        v = peer['variant']
-        if case['kind'] in ARRAY_KINDS: v = 'obj'
-        specs.append(('b' if v in ('obj', 'both') else 'a', attr if v == 'obj' else SIBLING[attr]))
-    return specs
-
-
-def slot_names(specs):
-    return ['%s.%s' % ('obj' if o == 'a' else 'b', a) for o, a in specs]
 
 
 class Holder(object):
@@ -158,18 +136,10 @@ def _slice(s):
 # ------------------------------------------------------------------------------------------------------------
 
 class Env(object):
-    def __init__(self, slots, by_value=False):
-        self.slots = list(slots)   # [(holder, attribute name)]; holder is a plain Holder or a Pony entity instance
-        self.by_value = by_value   # reference side only: a container handed over to another slot is stored as a copy
+    def __init__(self, holder, attr):
+        self.holder = holder
+        self.attr = attr
         self.aliases = {}          # alias number -> container bound to the local name x<number>
-        self.use(0)
-
-    def use(self, k):
-        self.holder, self.attr = self.slots[k]
-
-    def root_of(self, k):
-        h, a = self.slots[k]
-        return getattr(h, a)
 
     def root(self):
         return getattr(self.holder, self.attr)
@@ -186,9 +156,6 @@ class Env(object):
 def apply_step(step, env):
     """execute one concrete step; session steps are handled by the caller"""
     do = step['do']
-    if do == 'handover':
-        return do_handover(step, env)
-    env.use(step.get('on', 0))
     if do == 'alias':
         env.aliases[step['name']] = env.locate(step['t'])
         return
@@ -268,44 +235,6 @@ def apply_step(step, env):
         raise ValueError('unknown step %r' % (step,))
 
 
-def do_handover(step, env):
-    """put a container that belongs to the value of one slot into the value of another slot.  On the Pony side the
-    live tracked container is passed, exactly as user code would (`b.j['k'] = a.j['l']`).  On the reference side
-    (env.by_value) a copy is stored: the value of a Json/array attribute is a document of its own row, two attribute
-    values cannot share structure, so later changes made through one slot never show in the other."""
-    env.use(step['src']['on'])
-    v = env.locate({'path': step['src']['path']})
-    if env.by_value:
-        v = fresh(v)
-    env.use(step['on'])
-    how = step['how']
-    if how == 'assign':
-        setattr(env.holder, env.attr, v)
-        return
-    t = env.locate(step['t'])
-    kind = step.get('kind', 'list')
-    it = [v] if kind == 'list' else (v,) if kind == 'tuple' else (x for x in [v])
-    key = step.get('key')
-    if how == 'append': t.append(v)
-    elif how == 'insert': t.insert(step['i'], v)
-    elif how == 'l_setitem': t[step['i']] = v
-    elif how == 'extend': t.extend(it)
-    elif how == 'l_setslice': t[step['i']:step['i']] = it
-    elif how == 'iadd':
-        x = t
-        x += it
-    elif how == 'd_setitem': t[key] = v
-    elif how == 'update': t.update({key: v})
-    elif how == 'update_kwargs': t.update(**{key: v})
-    elif how == 'update_pairs': t.update([(key, v)])
-    elif how == 'setdefault': t.setdefault(key, v)
-    elif how == 'ior':
-        x = t
-        x |= {key: v}
-    else:
-        raise ValueError('unknown hand-over %r' % (step,))
-
-
 def do_read(step, t, env):
     """operations that only read.  Results are discarded: the property only says they must not mark the object."""
     w = step['what']
@@ -360,10 +289,10 @@ def do_read(step, t, env):
 # abstract program -> concrete steps, on the plain copy
 # ------------------------------------------------------------------------------------------------------------
 
-def _ref_src(name, ref):
+def _ref_src(attr, ref):
     if 'alias' in ref:
         return 'x%d' % ref['alias']
-    return name + ''.join('[%r]' % (k,) for k in ref['path'])
+    return 'obj.%s' % attr + ''.join('[%r]' % (k,) for k in ref['path'])
 
 
 def _iter_src(kind, vals):
@@ -388,38 +317,16 @@ def _slice_src(s):
     return txt
 
 
-def _handover_src(names, step):
-    v = _ref_src(names[step['src']['on']], {'path': step['src']['path']})
-    how = step['how']
-    if how == 'assign':
-        return '%s = %s' % (names[step['on']], v)
-    t = _ref_src(names[step['on']], step['t'])
-    kind = step.get('kind', 'list')
-    it = '[%s]' % v if kind == 'list' else '(%s,)' % v if kind == 'tuple' else '(v for v in [%s])' % v
-    key = step.get('key')
-    return {'append': '%s.append(%s)' % (t, v), 'insert': '%s.insert(%r, %s)' % (t, step.get('i'), v),
-            'l_setitem': '%s[%r] = %s' % (t, step.get('i'), v), 'extend': '%s.extend(%s)' % (t, it),
-            'l_setslice': '%s[%r:%r] = %s' % (t, step.get('i'), step.get('i'), it), 'iadd': 'x = %s; x += %s' % (t, it),
-            'd_setitem': '%s[%r] = %s' % (t, key, v), 'update': '%s.update({%r: %s})' % (t, key, v),
-            'update_kwargs': '%s.update(**{%r: %s})' % (t, key, v), 'update_pairs': '%s.update([(%r, %s)])' % (t, key, v),
-            'setdefault': '%s.setdefault(%r, %s)' % (t, key, v), 'ior': 'x = %s; x |= {%r: %s}' % (t, key, v)}[how]
-
-
-def step_src(names, step):
-    if isinstance(names, str):
-        names = ['obj.' + names]
+def step_src(attr, step):
     do = step['do']
-    if do == 'handover':
-        return _handover_src(names, step)
-    attr = names[step.get('on', 0)]
     if do in SESSION_OPS:
         if do == 'touch': return 'obj.n = %r' % step['n']
-        if do == 'reload': return '# commit, new db_session, objects fetched again'
+        if do == 'reload': return '# commit, new db_session, obj = E[id]'
         return do + '()'
     if do == 'alias':
         return 'x%d = %s' % (step['name'], _ref_src(attr, step['t']))
     if do == 'assign':
-        return '%s = %r' % (attr, step['val'])
+        return 'obj.%s = %r' % (attr, step['val'])
     t = _ref_src(attr, step['t'])
     if do in AUG_OPS:
         sym = {'iadd': '+=', 'imul': '*=', 'ior': '|='}[do]
@@ -492,30 +399,20 @@ def _array_item(kind, v):
 
 
 def resolve(case):
-    """run the abstract program on plain copies.  Pure Python; never touches Pony."""
+    """run the abstract program on a plain copy.  Pure Python; never touches Pony."""
     kind = case['kind']
+    attr = ATTR[kind]
     is_array = kind in ARRAY_KINDS
-    specs = slot_specs(case)
-    names = slot_names(specs)
-    nslots = len(specs)
-    docs0 = [sort_keys_rec(fresh(case['doc']))]
-    if nslots > 1:
-        docs0.append(sort_keys_rec(fresh(case['peer']['doc'])))
-    holders = {}
-    slots = []
-    for (o, a), d in zip(specs, docs0):
-        h = holders.setdefault(o, Holder())
-        setattr(h, a, fresh(d))
-        slots.append((h, a))
-    env = Env(slots, by_value=True)
+    holder = Holder()
+    doc0 = sort_keys_rec(fresh(case['doc']))
+    setattr(holder, attr, fresh(doc0))
+    env = Env(holder, attr)
     keep = []                  # keeps every container alive so that id() values are never reused
     alias_objs = []            # model object of alias k (None once invalidated by a reload)
     alias_stale = []           # alias k was taken before `parent[key] op= ...` re-bound a subtree containing it
     inserted = set()           # ids of containers inserted by earlier steps
     unwrapped = set()          # ids of containers that entered through a non-list iterable of extend / slice assignment
     unwrapped_aug = set()      # ids of containers that entered through an inherited in-place operator (x += .., obj.j |= ..)
-    handed = set()             # ids of containers that entered through a hand-over from another slot
-    handed_flushed = set()     # ... and whose hand-over has since been written by a flush/commit
     steps, src, snapshots = [], [], []
     flags = {'aug_local': False, 'unwrapped_item': False, 'stale_alias': False}
     classes = set()
@@ -525,20 +422,8 @@ def resolve(case):
     order_sensitive = False
     reads = 0
 
-    def roots():
-        return [env.root_of(k) for k in range(nslots)]
-
-    def all_conts():
-        out = []
-        for r in roots():
-            out.extend(containers(r))
-        return out
-
-    def slot_of(op):
-        return op.get('on', 0) % nslots
-
-    def choose(op, want, slot=None):
-        root = env.root_of(slot_of(op) if slot is None else slot)
+    def choose(op, want):
+        root = env.root()
         conts = containers(root)
         keep.extend(c for _, c in conts)
         pref = op.get('pref', 'any')
@@ -572,32 +457,6 @@ def resolve(case):
                 step = {'do': 'alias', 't': ref, 'name': len(alias_objs)}
         elif name == 'assign':
             step = {'do': 'assign', 'val': sort_keys_rec(fresh(op['val']))}
-        elif name == 'handover':
-            if nslots > 1:
-                s_slot = op.get('from', 1) % nslots
-                d_slot = 1 - s_slot
-                sconts = containers(env.root_of(s_slot))
-                if is_array or op.get('whole_src'):
-                    sconts = sconts[:1]
-                spath, sobj = sconts[op.get('src_sel', 0) % len(sconts)]
-                step = {'do': 'handover', 'on': d_slot, 'src': {'on': s_slot, 'path': list(spath)}}
-                if is_array or op.get('whole'):
-                    step['how'] = 'assign'
-                else:
-                    ref, t = choose(op, {'list': list, 'dict': dict}.get(op.get('want')), slot=d_slot)
-                    if ref is None:
-                        ref, t = choose(op, None, slot=d_slot)
-                    step['t'] = ref
-                    if isinstance(t, list):
-                        how = op.get('how_l', 'append')
-                        if how == 'l_setitem' and len(t) == 0: how = 'append'
-                        step['how'] = how
-                        if how == 'l_setitem': step['i'] = _index(len(t), op.get('i', 0))
-                        elif how in ('insert', 'l_setslice'): step['i'] = op.get('i', 0)
-                        if how in ('extend', 'l_setslice', 'iadd'): step['kind'] = op.get('kind', 'list')
-                    else:
-                        step['how'] = op.get('how_d', 'd_setitem')
-                        step['key'] = _pick_key(t, op)
         elif name == 'read':
             ref, t = choose(op, None)
             w = op['what']
@@ -626,7 +485,6 @@ def resolve(case):
             elif w == 'keys': step['key'] = op['key']
             elif w == 'or': step['pairs'] = op['pairs']
         elif name == 'mut' or name in LIST_OPS or name in DICT_OPS:
-            outer = op
             if name == 'mut':       # polymorphic: the target is chosen first, then the variant that fits its type
                 ref, t = choose(op, None)
                 op = op['l'] if isinstance(t, list) else op['d']
@@ -637,37 +495,28 @@ def resolve(case):
                 step = _resolve_mutation(name, op, ref, t, is_array)
                 if step is not None and step['do'] == 'popitem' and len(t) > 1:
                     order_sensitive = True
-            op = outer
         else:
             raise ValueError('unknown op %r' % (op,))
         if step is None:
             skipped += 1
             continue
-        if nslots > 1 and step['do'] not in SESSION_OPS and 'on' not in step:
-            step['on'] = slot_of(op)
 
         do = step['do']
         classes.add('op:' + (do if do != 'read' else 'read'))
         if do in SESSION_OPS:
-            steps.append(step); src.append(step_src(names, step))
-            if do in ('flush', 'commit'):
-                handed_flushed |= handed
+            steps.append(step); src.append(step_src(attr, step))
             if do == 'reload':
-                for h, a in slots:
-                    setattr(h, a, sort_keys_rec(fresh(getattr(h, a))))
+                setattr(holder, attr, sort_keys_rec(fresh(env.root())))
                 env.aliases = {}
                 alias_objs[:] = [None] * len(alias_objs)
                 unwrapped.clear()
                 unwrapped_aug.clear()
-                handed.clear()
-                handed_flushed.clear()
-                snapshots.append([fresh(r) for r in roots()])
+                snapshots.append(fresh(env.root()))
             continue
 
-        env.use(step.get('on', 0))
-        conts_before = all_conts()
-        ids_before = set(id(c) for _, c in conts_before)
-        before = canon(roots())
+        root_before = env.root()
+        ids_before = _subtree_ids(root_before)
+        before = canon(root_before)
         target = None
         if 't' in step:
             target = alias_objs[step['t']['alias']] if 'alias' in step['t'] else env.locate(step['t'])
@@ -679,12 +528,13 @@ def resolve(case):
 
         apply_step(step, env)
 
-        conts_after = all_conts()
+        root_after = env.root()
+        conts_after = containers(root_after)
         keep.extend(c for _, c in conts_after)
         ids_after = set(id(c) for _, c in conts_after)
-        changed = canon(roots()) != before
+        changed = canon(root_after) != before
         new_ids = ids_after - ids_before
-        steps.append(step); src.append(step_src(names, step))
+        steps.append(step); src.append(step_src(attr, step))
 
         if do == 'alias':
             alias_objs.append(env.aliases[step['name']]); alias_stale.append(False)
@@ -697,18 +547,12 @@ def resolve(case):
             if 'path' in step['t'] and step['t']['path']: classes.add('read_nested')
             continue
         inserted |= new_ids
-        if do == 'handover':
-            handed |= new_ids
-            classes.add('handover')
-            classes.add('handover:' + step['how'])
-            if step['src']['path']: classes.add('handover_nested_source')
         if changed:
             effective += 1
             depth = len(step['t']['path']) if ('t' in step and 'path' in step['t']) else 0
             via_alias = 't' in step and 'alias' in step['t']
             if depth >= 1 or via_alias: nested_effective += 1
             classes.add('depth:%d' % min(depth, 3) if not via_alias else 'via_alias')
-            if step.get('on', 0) == 1: classes.add('mutated_peer_slot')
         # --- root-cause flags (model-side analysis only) ---
         # `mutated`: the container whose mutating method Python invokes last (for parent[key] op= v that is the parent)
         mutated = target
@@ -745,18 +589,10 @@ def resolve(case):
             classes.add('pairs:' + step['kind'])
         if new_ids: classes.add('inserted_container')
         if target is not None and id(target) in inserted and changed: classes.add('mutated_inserted_container')
-        if do != 'handover' and changed and mutated is not None:
-            if id(mutated) in handed or (target is not None and id(target) in handed):
-                handed |= new_ids
-                classes.add('mutated_handed_over')
-                if id(mutated) in handed_flushed or (target is not None and id(target) in handed_flushed):
-                    classes.add('mutated_handed_over_after_flush')
 
-    final = [fresh(r) for r in roots()]
+    final = fresh(env.root())
     sess = [s['do'] for s in steps if s['do'] in SESSION_OPS]
-    if nslots > 1: classes.add('peer:' + case['peer']['variant'])
-    return {'attr': specs[0][1], 'slots': specs, 'names': names, 'doc0': docs0[0], 'docs0': docs0, 'steps': steps, 'src': src,
-            'snapshots': snapshots, 'final': final,
+    return {'attr': attr, 'doc0': doc0, 'steps': steps, 'src': src, 'snapshots': snapshots, 'final': final,
             'flags': flags, 'classes': sorted(classes), 'effective': effective, 'nested_effective': nested_effective,
             'skipped': skipped, 'reads': reads, 'order_sensitive': order_sensitive, 'session_steps': sess}
 
@@ -886,12 +722,10 @@ def strategies():
     via = st.sampled_from(['item', 'local'])
     iter_kind = st.sampled_from(ITER_KINDS)
 
-    on = st.integers(0, 1)      # slot acted on; ignored (taken modulo) when the case has no peer slot
-
     def opdict(name, **fields):
         d = {'op': st.just(name)}
         if name in ('alias', 'read'):
-            d.update(sel=sel, pref=pref, on=on)
+            d.update(sel=sel, pref=pref)
         d.update(fields)
         return st.fixed_dictionaries(d)
 
@@ -933,23 +767,17 @@ def strategies():
                    st.fixed_dictionaries({'op': st.just('reload')}),
                    st.fixed_dictionaries({'op': st.just('touch'), 'n': st.integers(0, 9)})]
         alias = opdict('alias')
-        assign = st.fixed_dictionaries({'op': st.just('assign'), 'val': root[kind], 'on': on})
-        handover = st.fixed_dictionaries({
-            'op': st.just('handover'), 'from': on, 'src_sel': sel, 'whole_src': st.sampled_from([False, False, True]),
-            'whole': st.sampled_from([False, False, False, True]), 'sel': sel, 'pref': pref,
-            'how_l': st.sampled_from(HOW_L), 'how_d': st.sampled_from(HOW_D), 'kind': st.sampled_from(HOW_KINDS),
-            'i': idx, 'exist': st.booleans(), 'key': key})
+        assign = st.fixed_dictionaries({'op': st.just('assign'), 'val': root[kind]})
         reads = READS_ANY + READS_LIST + (READS_DICT if kind not in ARRAY_KINDS else ())
         read = opdict('read', what=st.sampled_from(reads), i=st.integers(0, 6), a=bound, b=bound, step=stepv,
                       val=val, vals=vals, n=st.integers(0, 3), key=key, exist=st.booleans(), default=st.booleans(),
                       pairs=pairs)
-        variants = {'op': st.just('mut'), 'sel': sel, 'pref': pref, 'on': on, 'l': st.one_of(*list_ops)}
+        variants = {'op': st.just('mut'), 'sel': sel, 'pref': pref, 'l': st.one_of(*list_ops)}
         if kind not in ARRAY_KINDS:
             variants['d'] = st.one_of(*dict_ops)
         mut = st.fixed_dictionaries(variants)
         # one_of() removes duplicate branches, so weights are given by a drawn category
-        cats = {'mut': mut, 'session': st.one_of(*session), 'alias': alias, 'assign': assign, 'read': read,
-                'handover': handover}
+        cats = {'mut': mut, 'session': st.one_of(*session), 'alias': alias, 'assign': assign, 'read': read}
         sess_ro = st.one_of(st.sampled_from([{'op': 'flush'}, {'op': 'commit'}, {'op': 'reload'}]),
                             st.fixed_dictionaries({'op': st.just('touch'), 'n': st.integers(0, 9)}))
         cats_ro = {'read': read, 'session': sess_ro, 'alias': alias}
@@ -961,12 +789,8 @@ def strategies():
         @st.composite
         def read_op(draw):
             return draw(cats_ro[draw(st.sampled_from(['read'] * 6 + ['session'] * 2 + ['alias']))])
-        @st.composite
-        def peer_op(draw):      # op mix for cases with a peer slot: hand-overs and more flush/commit in between
-            return draw(cats[draw(st.sampled_from(['mut'] * 10 + ['handover'] * 5 + ['session'] * 5 + ['alias'] * 2
-                                                  + ['assign', 'read']))])
-        mut_op, read_op, peer_op = mut_op(), read_op(), peer_op()
-        return mut_op, read_op, peer_op
+        mut_op, read_op = mut_op(), read_op()
+        return mut_op, read_op
 
     ops = {k: build(k) for k in ATTR}
 
@@ -976,15 +800,9 @@ def strategies():
         origin = draw(st.sampled_from(['loaded', 'loaded', 'loaded', 'flushed', 'flushed', 'created']))
         readonly = draw(st.sampled_from([False, False, False, True]))
         d = draw(root[kind])
-        mut_op, read_op, peer_op = ops[kind]
-        case = {'kind': kind, 'origin': origin, 'readonly': readonly, 'doc': d}
-        if draw(st.sampled_from([False, False, False, True, True])):
-            variant = 'obj' if kind in ARRAY_KINDS else draw(st.sampled_from(['obj', 'obj', 'attr', 'both']))
-            case['peer'] = {'variant': variant, 'doc': draw(root[kind])}
-            case['prog'] = draw(st.lists(read_op if readonly else peer_op, min_size=2 - readonly, max_size=7))
-        else:
-            case['prog'] = draw(st.lists(read_op if readonly else mut_op, min_size=1, max_size=6))
-        return case
+        mut_op, read_op = ops[kind]
+        prog = draw(st.lists(read_op if readonly else mut_op, min_size=1, max_size=6))
+        return {'kind': kind, 'origin': origin, 'readonly': readonly, 'doc': d, 'prog': prog}
 
     return case()
 
@@ -1125,61 +943,3 @@ def grid_cases():
             for w in READS_ANY + READS_LIST:
                 yield case(kind, origin, [dict(rd, what=w, sel=0, pref='any', val=a, vals=[b], exist=True)], readonly=True,
                            doc=GRID_ARRAYS[kind])
-    # F. hand-over: a container read from one slot (object, attribute) is put into another slot, the hand-over is
-    #    optionally written by flush/commit, then the receiver (or the source) is changed in place
-    for c in handover_grid():
-        yield c
-
-
-GRID_PEER = {'m': {'k': [0]}, 'own': True, 't': [[5], {'q': 1}]}
-
-
-def handover_grid():
-    def case(kind, origin, variant, prog, doc=None, peer_doc=None):
-        return {'kind': kind, 'origin': origin, 'readonly': False, 'doc': fresh(doc if doc is not None else GRID_DOC),
-                'peer': {'variant': variant, 'doc': fresh(peer_doc if peer_doc is not None else GRID_PEER)},
-                'prog': fresh(prog)}
-
-    hows = [dict(whole=True)]
-    for h in HOW_L:
-        for kind in (HOW_KINDS if h in ('extend', 'l_setslice', 'iadd') else ('list',)):
-            hows.append(dict(want='list', how_l=h, kind=kind, i=1))
-    for h in HOW_D:
-        hows.append(dict(want='dict', how_d=h, key='got', exist=False))
-
-    def followers(src, dst, src_sel):
-        return [[dict(op='mut', on=dst, sel=0, pref='new', l=dict(op='append', val='y'),
-                      d=dict(op='d_setitem', exist=False, i=0, key='y', val=[1]))],
-                [dict(op='mut', on=dst, sel=1, pref='new', l=dict(op='iadd', vals=['z'], kind='list', via='item'),
-                      d=dict(op='d_pop', exist=True, i=0, key='none', default=False, val=0))],
-                # the source is changed afterwards: the receiver must keep what it was given
-                [dict(op='mut', on=src, sel=src_sel, pref='any', l=dict(op='append', val='s'),
-                      d=dict(op='d_setitem', exist=False, i=0, key='s', val=1)),
-                 dict(op='mut', on=dst, sel=0, pref='new', l=dict(op='reverse'), d=dict(op='d_setitem', exist=False, i=0, key='r', val=2))]]
-
-    betweens = [[], [dict(op='flush')], [dict(op='commit')], [dict(op='touch', n=3), dict(op='flush')], [dict(op='reload')]]
-    plan = [('obj', (1, 0), (0, 1, 3), betweens, ('loaded', 'flushed')),
-            ('attr', (1,), (0, 3), betweens[:4], ('loaded',)),
-            ('both', (1,), (0, 3), betweens[:4], ('loaded',))]
-    for variant, froms, src_sels, mids, origins in plan:
-        for origin in origins:
-            for frm in froms:
-                for src_sel in src_sels:
-                    for how in hows:
-                        for sel in ((0,) if how.get('whole') else (0, 1)):
-                            if sel == 1 and variant != 'obj': continue
-                            for mid in mids:
-                                for f in followers(frm, 1 - frm, src_sel):
-                                    h = dict(how, op='handover', src_sel=src_sel, sel=sel, pref='any')
-                                    h['from'] = frm
-                                    yield case('json', origin, variant, [h] + mid + f)
-    for kind in ARRAY_KINDS:
-        a, b = GRID_ITEM[kind]
-        for origin in ('loaded', 'flushed'):
-            for frm in (1, 0):
-                for mid in betweens:
-                    for f in ([dict(op='append', on=1 - frm, val=a, sel=0, pref='any')],
-                              [dict(op='iadd', on=1 - frm, vals=[b], kind='tuple', via='local', sel=0, pref='any')],
-                              [dict(op='append', on=frm, val=a, sel=0, pref='any'), dict(op='l_pop', on=1 - frm, i=0, sel=0, pref='any')]):
-                        h = {'op': 'handover', 'from': frm, 'whole': True}
-                        yield case(kind, origin, 'obj', [h] + mid + f, doc=GRID_ARRAYS[kind], peer_doc=[a, b])
